@@ -11,14 +11,15 @@ import (
 const c13Rule = "document sets over a default, a pattern and a range field (repeated fields, value lists longer than the caching threshold, wide ranges next to long lists, keywords with quotes/spaces/unicode), caching thresholds {0, 2, 512}, three successive builds sharing one cache provider whose Get misses and whose Set drops by seeded coin (0/30/100 %), new builder per build or Reset of the same builder, both index types; every cached build is compared with the plain build on AddDocument outcomes and 10..16 queries. Non-trivial = at least one conjunction was actually served from the cache in some build and some query returns a non-empty proper subset; distinct = distinct input"
 
 type cacheIn struct {
-	Cache   bool  `json:"cache"`
-	Case    eCase `json:"case"`
-	Thr     int   `json:"thr"`
-	Seed    int64 `json:"seed"`
-	MissPct int   `json:"miss"`
-	DropPct int   `json:"drop"`
-	Reuse   bool  `json:"reuse"`            // Reset and reuse one builder instead of a new builder per build
-	Retain  bool  `json:"retain,omitempty"` // the provider keeps the very slice Set was given (a plain map provider) instead of copying it
+	Cache   bool   `json:"cache"`
+	Case    eCase  `json:"case"`
+	Thr     int    `json:"thr"`
+	Seed    int64  `json:"seed"`
+	MissPct int    `json:"miss"`
+	DropPct int    `json:"drop"`
+	Reuse   bool   `json:"reuse"`            // Reset and reuse one builder instead of a new builder per build
+	Case2   *eCase `json:"case2,omitempty"`  // with Reuse: the generations after the first Reset are built from THESE documents (same ids, changed conjunctions); they are what is compared, against a plain build of Case2
+	Retain  bool   `json:"retain,omitempty"` // the provider keeps the very slice Set was given (a plain map provider) instead of copying it
 }
 
 type lossyCache struct {
@@ -57,7 +58,11 @@ func execCache(raw json.RawMessage) (res execResult, err error) {
 	old := be.BetterToCacheMaxItemsCount
 	be.BetterToCacheMaxItemsCount = in.Thr
 	defer func() { be.BetterToCacheMaxItemsCount = old }()
-	rp, _ := json.Marshal(in.Case)
+	ref := in.Case
+	if in.Case2 != nil {
+		ref = *in.Case2
+	}
+	rp, _ := json.Marshal(ref)
 	plain, e := execE2E(rp)
 	if e != nil {
 		return res, e
@@ -68,6 +73,9 @@ func execCache(raw json.RawMessage) (res execResult, err error) {
 	var shared *be.IndexerBuilder
 	for b := 0; b < 3; b++ {
 		obs := &e2eObs{}
+		if in.Case2 != nil && b == 1 {
+			c = *in.Case2 // the documents changed between the generations of the reused builder
+		}
 		var bld *be.IndexerBuilder
 		if in.Reuse && shared != nil {
 			bld = shared
@@ -98,6 +106,9 @@ func execCache(raw json.RawMessage) (res execResult, err error) {
 			state = fmt.Sprintf("(Some (%s, %s))", nlist(es), nlist(z))
 		}
 		qLits := runIndexQueries(index, c.Queries, obs)
+		if in.Case2 != nil && b == 0 {
+			continue // the first generation only fills the cache
+		}
 		lits = append(lits, fmt.Sprintf("Build_ecase %s\n    %s\n    %s\n    %s", c.header(), listl(docLits), listl(qLits), state))
 	}
 	res.Coq = fmt.Sprintf("(%s,\n  [%s])", plain.Coq, strings.Join(lits, ";\n   "))
